@@ -1,6 +1,7 @@
 package main
 
 import (
+	"go/token"
 	"fmt"
 	"go/ast"
 	"go/types"
@@ -91,6 +92,9 @@ func loadProgram(repo string) (*Program, error) {
 	for _, p := range pkgs {
 		visit(p)
 	}
+	for _, path := range P.Order {
+		indexClosureLabels(P.ByPath[path].Syntax)
+	}
 	// index functions
 	for fn := range ssautil.AllFunctions(prog) {
 		if fn.Pkg == nil && fn.Origin() == nil && fn.Parent() == nil {
@@ -139,6 +143,9 @@ func funcKey(fn *ssa.Function) string {
 		if pk == "" {
 			return ""
 		}
+		if lbl := closureLabel(o); lbl != "" {
+			return pk + "$" + lbl
+		}
 		return pk + strings.TrimPrefix(o.Name(), o.Parent().Name())
 	}
 	pkg := o.Pkg
@@ -170,4 +177,89 @@ func recvPrefix(fn *ssa.Function) string {
 // docPos helps error messages.
 func posStr(P *Program, n ast.Node) string {
 	return P.Prog.Fset.Position(n.Pos()).String()
+}
+
+// closureLabels names function literals after what they are bound to: "x" for  x := func...,  "V.Field" for a
+// field of a package-level variable's composite literal, "Field" for a field elsewhere. Literals bound to nothing
+// keep their ordinal. A label used twice under one parent is dropped (ordinals again).
+var closureLabels = map[token.Pos]string{}
+
+func closureLabel(fn *ssa.Function) string {
+	if lit, ok := fn.Syntax().(*ast.FuncLit); ok {
+		return closureLabels[lit.Pos()]
+	}
+	return ""
+}
+
+func indexClosureLabels(files []*ast.File) {
+	for _, f := range files {
+		for _, d := range f.Decls {
+			switch d := d.(type) {
+			case *ast.GenDecl:
+				for _, sp := range d.Specs {
+					if vs, ok := sp.(*ast.ValueSpec); ok && len(vs.Names) == 1 {
+						for _, val := range vs.Values {
+							labelClosures(val, vs.Names[0].Name+".")
+						}
+					}
+				}
+			case *ast.FuncDecl:
+				if d.Body != nil {
+					labelClosures(d.Body, "")
+				}
+			}
+		}
+	}
+}
+
+func labelClosures(root ast.Node, prefix string) {
+	used := map[string]int{}
+	var pend []struct {
+		pos token.Pos
+		l   string
+	}
+	var walk func(n ast.Node, prefix string)
+	walk = func(n ast.Node, prefix string) {
+		ast.Inspect(n, func(x ast.Node) bool {
+			switch x := x.(type) {
+			case *ast.AssignStmt:
+				if len(x.Lhs) == 1 && len(x.Rhs) == 1 {
+					if id, ok := x.Lhs[0].(*ast.Ident); ok {
+						if lit, ok := x.Rhs[0].(*ast.FuncLit); ok {
+							pend = append(pend, struct {
+								pos token.Pos
+								l   string
+							}{lit.Pos(), id.Name})
+							used[id.Name]++
+							labelClosures(lit.Body, "")
+							return false
+						}
+					}
+				}
+			case *ast.KeyValueExpr:
+				if id, ok := x.Key.(*ast.Ident); ok {
+					if lit, ok := x.Value.(*ast.FuncLit); ok {
+						pend = append(pend, struct {
+							pos token.Pos
+							l   string
+						}{lit.Pos(), prefix + id.Name})
+						used[prefix+id.Name]++
+						labelClosures(lit.Body, "")
+						return false
+					}
+				}
+			case *ast.FuncLit:
+				// unnamed literal: its own closures are labelled relative to it
+				labelClosures(x.Body, "")
+				return false
+			}
+			return true
+		})
+	}
+	walk(root, prefix)
+	for _, p := range pend {
+		if used[p.l] == 1 {
+			closureLabels[p.pos] = p.l
+		}
+	}
 }
